@@ -71,4 +71,187 @@ def compoundCollect {ε : Type} (fuel : Nat) (c : Compound) :
     R ε (List (R ParseError Packet × Nat) × Bool × Compound) :=
   compoundGo c.data c.data.length fuel (c.data.drop c.offset) c.offset c.isOver []
 
+/-! ## Compound.parse -/
+
+/-- the validation loop of `Compound::parse` with `rest = d.drop off` threaded and `len = d.length` -/
+def parseGo (len : Nat) (rest : Bytes) (off : Nat) : R ParseError Unit :=
+  if off < len then
+    match rest with
+    | _ :: _ :: x :: y :: _ =>
+      if len < off + 4 * (x.toNat * 256 + y.toNat + 1) then
+        .err (.truncated (off + 4 * (x.toNat * 256 + y.toNat + 1)) len)
+      else parseGo len (rest.drop (4 * (x.toNat * 256 + y.toNat + 1))) (off + 4 * (x.toNat * 256 + y.toNat + 1))
+    | _ => .err (.truncated (off + 4) len)
+  else .ok ()
+termination_by len - off
+decreasing_by omega
+
+def compoundParse (d : Bytes) : R ParseError Compound :=
+  if d.isEmpty then .err (.truncated 4 0)
+  else
+    match parseGo d.length d 0 with
+    | .ok () => .ok ⟨d, 0, false⟩
+    | .err e => .err e
+    | .panic => .panic
+
+/-! ## Sdes.parse
+
+  Same scanner as `Sdes.parse`, but every loop threads the remaining bytes and is told their
+  number `n` instead of recomputing `List.length` / `List.drop off` from the start. -/
+
+/-- `SdesItem.parse base d` where `n` stands for `d.length` -/
+def itemParseN (base : Nat) (d : Bytes) (n : Nat) : R ParseError (SdesItem × Nat) := do
+  if n < 2 then
+    .err (.truncated 2 n)
+  else
+    let length := (← idx d 1).toNat
+    let e := 2 + length
+    if e > n then
+      .err (.truncated e n)
+    else if length > 255 then
+      .err (.sdesValueTooLarge length 255)
+    else
+      let item : SdesItem := ⟨base, d.take e⟩
+      if (← item.type) == SdesItem.PRIV then
+        if item.data.length < 3 then
+          .err (.truncated 3 item.data.length)
+        else
+          let prefixLen ← item.privPrefixLen
+          let valueOffset ← item.privValueOffset
+          if valueOffset > item.data.length then
+            let av ← usub (length % 256) 1
+            .err (.sdesPrivPrefixTooLarge prefixLen.toNat av.toUInt8)
+          else pure (item, e)
+      else pure (item, e)
+
+theorem itemParseN_consumed {base : Nat} {d : Bytes} {n : Nat} {it : SdesItem} {e : Nat}
+    (h : itemParseN base d n = .ok (it, e)) : 2 ≤ e ∧ e ≤ n := by
+  unfold itemParseN at h
+  simp only [bind, R.bind, pure] at h
+  split at h
+  · cases h
+  · cases hi : (idx d 1 : R ParseError UInt8) <;> simp only [hi] at h <;> try cases h
+    split at h
+    · cases h
+    · split at h
+      · cases h
+      · split at h <;> try cases h
+        rename_i ty _
+        split at h
+        · split at h
+          · cases h
+          · split at h <;> try cases h
+            split at h <;> try cases h
+            split at h
+            · split at h <;> cases h
+            · cases h; omega
+        · cases h; omega
+
+/-- `SdesChunk.itemLoop base d off acc` with `len = d.length`, `rest = d.drop off`, `acc` reversed -/
+def itemGo (base len : Nat) (rest : Bytes) (off : Nat) (acc : List SdesItem) :
+    R ParseError (List SdesItem × Nat) :=
+  if off < len then
+    if rest.head? == some 0 then .ok (acc.reverse, off + 1)
+    else
+      match hp : itemParseN (base + off) rest (len - off) with
+      | .ok (item, e) => itemGo base len (rest.drop e) (off + e) (item :: acc)
+      | .err er => .err er
+      | .panic => .panic
+  else .ok (acc.reverse, off)
+termination_by len - off
+decreasing_by
+  have := itemParseN_consumed hp
+  omega
+
+theorem itemGo_ge (base len : Nat) (rest : Bytes) (off : Nat) (acc : List SdesItem)
+    {items : List SdesItem} {e : Nat}
+    (h : itemGo base len rest off acc = .ok (items, e)) : off ≤ e := by
+  fun_induction itemGo base len rest off acc with
+  | case1 rest off acc hlt hz => cases h; omega
+  | case2 rest off acc hlt hz item e' hp ih =>
+    have := ih h
+    have := itemParseN_consumed hp
+    omega
+  | case3 rest off acc hlt hz er hp => cases h
+  | case4 rest off acc hlt hz hp => cases h
+  | case5 rest off acc hge => cases h; omega
+
+/-- `SdesChunk.parse base d` where `n` stands for `d.length` -/
+def chunkParseN (base : Nat) (d : Bytes) (n : Nat) : R ParseError (SdesChunk × Nat) := do
+  if n < 4 then
+    .err (.truncated 4 n)
+  else
+    let ssrc ← fromBe32 (d.take 4)
+    let (items, off) ←
+      if n > 4 then do
+        let (items, off) ← itemGo base n (d.drop 4) 4 []
+        let fillEnd := min (pad4 off) n
+        pure (items, SdesChunk.skipZeros d off fillEnd)
+      else pure ([], 4)
+    if pad4 off != off then
+      .err (.truncated (pad4 off) off)
+    else pure (⟨ssrc, items⟩, off)
+
+theorem chunkParseN_consumed {base : Nat} {d : Bytes} {n : Nat} {c : SdesChunk} {e : Nat}
+    (h : chunkParseN base d n = .ok (c, e)) : 4 ≤ e := by
+  unfold chunkParseN at h
+  simp only [bind, R.bind, pure] at h
+  split at h
+  · cases h
+  · split at h <;> try cases h
+    split at h
+    · split at h <;> try cases h
+      rename_i a hloop
+      obtain ⟨items, off⟩ := a
+      split at h <;> try cases h
+      have h1 := itemGo_ge _ _ _ _ _ hloop
+      have h2 := Sdes.skipZeros_ge d off (min (pad4 off) n)
+      simp only at h2 ⊢
+      omega
+    · split at h <;> cases h
+      omega
+
+/-- `Sdes.chunkLoop d chunksEnd off acc` with `rest = (d.take chunksEnd).drop off`, `acc` reversed -/
+def chunkGo (chunksEnd : Nat) (rest : Bytes) (off : Nat) (acc : List SdesChunk) :
+    R ParseError (List SdesChunk) :=
+  if off < chunksEnd then
+    match hp : chunkParseN off rest (chunksEnd - off) with
+    | .ok (c, e) => chunkGo chunksEnd (rest.drop e) (off + e) (c :: acc)
+    | .err er => .err er
+    | .panic => .panic
+  else .ok acc.reverse
+termination_by chunksEnd - off
+decreasing_by
+  have := chunkParseN_consumed hp
+  omega
+
+def sdesParse (d : Bytes) : R ParseError Sdes := do
+  checkPacket 4 202 d
+  let padding := ((← parsePadding d).getD 0).toNat
+  let len := d.length
+  if len < 4 + padding then
+    .err (.truncated (4 + padding) len)
+  else
+    let chunksEnd := len - padding
+    let chunks ← if chunksEnd > 4 then chunkGo chunksEnd ((d.take chunksEnd).drop 4) 4 [] else pure []
+    pure ⟨d, chunks⟩
+
+end Rtcp.Impl.Fast
+
+namespace Rtcp.Impl.Fast
+open Rtcp Rtcp.Impl
+
+/-- `Kind.parse` with the linear SDES scanner -/
+def kindParse : Kind → Bytes → R ParseError Packet
+  | .sdes, d => Packet.sdes <$> Fast.sdesParse d
+  | k, d => k.parse d
+
+/-- `Packet.parse` with the linear SDES scanner -/
+def packetParse (d : Bytes) : R ParseError Packet := do
+  if d.length < 4 then
+    .err (.truncated 4 d.length)
+  else
+    let t ← parsePacketType d
+    if t == 202 then kindParse .sdes d else Packet.parse d
+
 end Rtcp.Impl.Fast
